@@ -2,9 +2,10 @@ CONSTANTS
   Depth = 4
   EmitZero = FALSE
   DescUnits = {"Seconds"}
-  HistVals = {"v100", "v1e6", "v2e31", "vmax", "vhuge"}
+  HistVals = {"v1e6", "v2e31", "vhuge"}
   HistCounts = {1, 2, 5000}
   GaugeOps = {"set"}
+  RecHows = {"loop", "many"}
 SPECIFICATION Spec
 INVARIANT Emit
 INVARIANT UnitInv
